@@ -191,6 +191,54 @@ ALLOW_VALUES = [False, True, False, True, False, True, 0, 1, None, "on"]
 REPEAT_COUNTS = [2, 3, 5, 17, 64, 100, 255, 256, 257, 258, 300, 300, 513]
 
 
+# ---- approvers that raise or call back; the clock -------------------------------
+# case["acts"] = [[rule, action] ...]: what the approval callback does BESIDES answering, decided by the first rule (same
+# rule language as the verdicts) that matches the proposed change.  action = ["raise", k]: the callback raises EXC[k]
+# (the harness plays the caller that handles it and goes on); ["call", name, value]: before answering it calls
+# mutate(name, value) on the genome that is consulting it.  Acted out for the calls a user makes (mutate, rollback), one
+# level deep: the callback consulted by the inner mutate only answers.
+class ApproverAbort(BaseException):
+    """An application-defined BaseException (like KeyboardInterrupt / SystemExit: not an Exception)."""
+
+
+EXC = [ValueError, RuntimeError, KeyError, Exception, ZeroDivisionError, TypeError,
+       KeyboardInterrupt, SystemExit, GeneratorExit, ApproverAbort]
+N_PLAIN_EXC = 6             # EXC[:6] are Exception subclasses, the rest are not
+
+
+def act_says(acts, n, old, v, r):
+    """The action of the first matching rule (None: the approver just answers).  old, v: tagged values."""
+    if r not in (0, 1):
+        return None
+    for q, a in acts or []:
+        if rule_ok(q, n, old, v, r):
+            return a
+    return None
+
+
+# case["clock"] = [step, r0, r1, ...]: what datetime.now() of the genome module returns while the history runs, in seconds
+# after a fixed instant: r0, r1, ... and, once the script is exhausted, the last reading + step (step 0: the clock stands
+# still, negative: it runs backwards).  Absent: [1] = a clock that ticks 1, 2, 3, ...
+CLOCKS = [[0], [0], [0, 7], [-1, 100], [-3], [1, 10, 5, 6, 7], [1, 5, 5, 5, 5], [0, 3, 2, 1], [1, 0, 0, 0, 9, 9, 8],
+          [60, 0, 0], [1, 86400, 0], [-1, 2, 2, 3, 3]]
+
+
+def make_clock(spec):
+    import datetime as _dt
+    step, state = spec[0], {"last": 0, "script": list(spec[1:]), "log": []}
+    base = _dt.datetime(2026, 1, 1, 12, 0, 0)
+
+    class ScriptedClock(_dt.datetime):
+        @classmethod
+        def now(cls, tz=None):
+            x = state["script"].pop(0) if state["script"] else state["last"] + step
+            state["last"] = x
+            state["log"].append(x)
+            return base + _dt.timedelta(seconds=x)
+
+    return ScriptedClock, state
+
+
 def flat_ops(ops):
     """The calls a case makes, in order: [(op, compact, index of the case operation)]; compact = an earlier call
     of a repetition (observed by return value and statistics only)."""
@@ -253,6 +301,18 @@ class C20(Check):
              "whole log compared with the model at the end; plus an enumerated family: an applied mutation, then k in "
              "{17, 257, 300} (thorough: also 64, 255, 256, 258, 513, 1025) logged attempts (refused retries on another gene / on "
              "the same gene, or applied churn on another gene), then the rollback")
+    RULE += ("; APPROVERS THAT RAISE OR CALL BACK: in 30% of the generated cases with a callback the approver, besides answering, does "
+             "something decided by 1..3 rules over the proposed change (mostly keyed to a change some mutate of the case proposes): it "
+             "raises one of 10 exception classes (ValueError, RuntimeError, KeyError, Exception, ZeroDivisionError, TypeError; "
+             "KeyboardInterrupt, SystemExit, GeneratorExit and an application BaseException subclass) -- the harness is the caller that "
+             "handles it and goes on with the history on the same genome --, or it calls mutate(name, value) on the genome that is "
+             "consulting it (the gene in question, another gene, no gene) before it answers; acted out for the user's mutate / "
+             "rollback_mutation calls, one level deep; enumerated: every exception class x 3 callbacks followed by mutate / rollback / "
+             "replicate / calls on the child, and a call-back to the same / another / no gene x 2 rule shapes x 4 callbacks. THE CLOCK: "
+             "datetime.now of the genome module is a scripted clock for the duration of every history (40% of the generated cases: "
+             "standing still, running backwards, stepping back, coarse, repeated readings; else ticking); enumerated: 12 clocks x "
+             "{allow_mutations, approve-everything callback} on a history with several approved mutations of one gene, rollbacks, a "
+             "replicate and rollbacks on the child; the number of readings per call and the readings are observations")
     LEVEL_TEXT = ("Coq theorems, for all genomes, approval callbacks (arbitrary functions of gene, old value, new value, reason) and "
                   "operation lists of any length over a lineage of any size, about a hand-written model of Genome: with allow_mutations "
                   "off every stored value is the replay of the callback-approved log entries (so nothing changes, hash included, when "
@@ -270,7 +330,14 @@ class C20(Check):
                   "the values are the replay of the entries approved by a callback installed at the time (values are "
                   "None / bool / int / float / str, None being a value and not 'nothing recorded'; gene names are arbitrary strings, each "
                   "spelling its own gene: calls made under any other name, padded or re-cased spellings included, never touch a gene's "
-                  "entry, whatever allow_mutations and the callback say). The model is tied to the code by evaluating it in Coq on every generated lineage history "
+                  "entry, whatever allow_mutations and the callback say). The approval callback may also RAISE (any exception class; the caller handles it and goes on) or CALL BACK "
+                  "into the genome consulting it before it answers (behaviours: arbitrary functions of the proposed change): a call that "
+                  "ends with the approver's exception changed nothing at all, a re-entrant approver is two gated calls (the outer entry "
+                  "records the value the gene had when the outer call was made), and after ANY history with such approvers a locked genome's "
+                  "values are still the replay of the log entries approved by the verdict of an installed callback "
+                  "(c20_locked_genome_stays_gated); the clock the module reads (any clock: standing still, running backwards) is never "
+                  "looked at again: lineage and readings per call are the same under any two clocks. "
+                  "The model is tied to the code by evaluating it in Coq on every generated lineage history "
                   "the implementation ran and comparing return values, exported genes, get_value, hashes, statistics, expressed "
                   "configurations and logs of every genome after every operation.")
     LEVEL_NOTE = ("Trusts: Coq kernel+VM; the correspondence harness; names modelled as the integer code of their code points "
@@ -296,9 +363,20 @@ class C20(Check):
                "(random.random() - 0.5)` is evaluated in the model by Coq's Gallina specification of IEEE binary64 "
                "(Coq.Floats.SpecFloat; no primitive floats); results that are not finite are not generated; the monitor takes "
                "the calls of Genome.mutate made on the child while replicate runs (recorded by a wrapper) as the attempted mutations"]
+    TRUSTED += ["what an approver does besides answering (raise / call mutate on the consulting genome) is a function of the proposed "
+                "change and is exercised for the user's mutate / rollback_mutation calls, one level deep (the callback consulted by "
+                "the approver's own mutate only answers); approvers are not made to raise or call back during replicate",
+                "the clock is `datetime` of operon_ai.state.genome, rebound to a scripted subclass of datetime for the duration of a "
+                "history; Mutation.timestamp / ExpressionState.modified_at defaults are bound to the real datetime.now at import and are "
+                "not observed"]
     ASSUMPTIONS = ["configuration attributes are assigned plain values: allow_mutations any object (its truth value counts), "
                    "on_mutation a callable or None, mutation_rate a number k/64; they are not deleted and no other attribute "
                    "(_genes, _expression, _mutations, silent) is assigned from outside",
+                   "a call of mutate / rollback_mutation that ends with the approver's exception: nothing may have changed; whether the "
+                   "attempt is also logged unapproved is not demanded (the call was not refused, it failed); a call that swallows the "
+                   "approver's exception must refuse and log. An approver's own approved change of the very gene it is being asked "
+                   "about: the outer change is judged as proposed (old value = the value when the outer call was made), and that old "
+                   "value is what rollback restores (noted, DESIGN reading of 'the value that preceded the last approved mutation')",
                    "a refused re-add (add_gene of an existing name) returns False without a log entry: noted, not demanded (DESIGN reading)"]
 
     # -- generation --------------------------------------------------------
@@ -346,6 +424,35 @@ class C20(Check):
         (the rate test, then the perturbation); sometimes the script is too short (then 32/64 is returned)."""
         k = rng.choice([0, ngenes, 2 * ngenes, 2 * ngenes + 2, 2 * ngenes + 2, 2 * ngenes + 2])
         return [rng.choice([0, 0, 1, 15, 16, 31, 32, 33, 47, 48, 63, 63, rng.randrange(64)]) for _ in range(k)]
+
+    def _rand_acts(self, rng, ops, known):
+        """What the approver does besides answering: mostly keyed to a change some mutate of the case proposes."""
+        muts = [(o[2], o[3]) for o in ops if o[1] == "mutate"]
+        muts += [(o[3][1], o[3][2]) for o in ops if o[1] == "repeat" and o[3][0] == "mutate"]
+        acts = []
+        for _ in range(rng.choice([1, 1, 2, 3])):
+            gene = None
+            if muts and rng.random() < 0.7:
+                gene, val = rng.choice(muts)
+                q = rng.choice([["match", gene, None, [val], None], ["match", gene, None, None, None],
+                                ["match", None, None, [val], None], ["match", gene, None, [val], 0]])
+            else:
+                q = rng.choice([["match", None, None, None, 1], ["match", None, None, None, None], ["newmod", 2, rng.randrange(2)],
+                                ["grow"], ["match", None, None, None, 0]])
+            if rng.random() < 0.55:
+                a = ["raise", rng.randrange(len(EXC))]
+            else:
+                pool = sorted(known, key=nstr) or [0]
+                tgt = gene if gene is not None and rng.random() < 0.35 else rng.choice(pool) if rng.random() < 0.9 else rng.randrange(8)
+                a = ["call", tgt, self._rand_value(rng, -2, 6)]
+            acts.append([q, a])
+        return acts
+
+    @staticmethod
+    def _rand_clock(rng):
+        if rng.random() < 0.6:
+            return list(rng.choice(CLOCKS))
+        return [rng.choice([0, 0, 1, -1, 2])] + [rng.choice([0, 0, 1, 2, 3, 5, 5, 9]) for _ in range(rng.choice([1, 2, 4, 8]))]
 
     def gen_cases(self, rng, n):
         out = []
@@ -453,6 +560,12 @@ class C20(Check):
                 case["from_dict"] = True
             if oracle is not None and rng.random() < 0.25:
                 case["cbret"] = rng.choice([1, 2])
+            # approvers that raise (the caller handles it and goes on) or call back into the genome consulting them
+            if (oracle is not None or any(o[1] == "setcb" and o[2] is not None for o in ops)) and rng.random() < 0.3:
+                case["acts"] = self._rand_acts(rng, ops, known)
+            # the clock the module reads: standing still, stepping or running backwards, coarse, scripted
+            if rng.random() < 0.4:
+                case["clock"] = self._rand_clock(rng)
             out.append(case)
         return out
 
@@ -510,6 +623,29 @@ class C20(Check):
                     (True, None, ["mutate", 0, 4])):                                  # applied churn on another gene
                 out.append({"allow": allow, "oracle": oracle, "genes": genes,
                             "ops": [[0, "mutate", 1, 3], [0, "repeat", k, between], [0, "rollback", 1], [0, "rollback", 0]]})
+        every = [["match", None, None, None, None]]
+        # an approver that raises (every exception class) when asked about one change; the caller handles it and goes on
+        # with mutate / rollback / replicate on the same locked genome
+        for kx in range(len(EXC)):
+            for oracle in ([], [["match", 0, None, None, None]], every):
+                out.append({"allow": False, "oracle": oracle, "genes": genes, "acts": [[["match", 1, None, [3], None], ["raise", kx]]],
+                            "ops": [[0, "mutate", 1, 3], [0, "mutate", 1, 4], [0, "mutate", 0, 2], [0, "rollback", 1],
+                                    [0, "rollback", 0], [0, "replicate", [[1, 7]], 1], [1, "mutate", 1, 3], [1, "mutate", 1, 5]]})
+        # an approver that calls back into the genome (mutate of the same gene, another gene, no gene) before it answers
+        for tgt in (0, 1, 2):
+            for reason in (0, None):
+                for oracle in ([], [["match", 0, None, None, None]], [["match", 1, None, None, None]], every):
+                    out.append({"allow": False, "oracle": oracle, "genes": genes,
+                                "acts": [[["match", 1, None, None, reason], ["call", tgt, 7]]],
+                                "ops": [[0, "mutate", 1, 3], [0, "mutate", 1, 4], [0, "rollback", 1], [0, "rollback", 0],
+                                        [0, "mutate", 0, 5], [0, "rollback", 1]]})
+        # several approved mutations of one gene, then rollbacks, under every clock
+        for clk in CLOCKS:
+            for allow, oracle in ((True, None), (False, every)):
+                out.append({"allow": allow, "oracle": oracle, "genes": genes, "clock": list(clk),
+                            "ops": [[0, "mutate", 1, 3], [0, "mutate", 1, 4], [0, "rollback", 1], [0, "silence", 0],
+                                    [0, "mutate", 1, 6], [0, "mutate", 0, 1], [0, "mutate", 1, 7], [0, "rollback", 1],
+                                    [0, "replicate", [[1, 8]], 1], [1, "mutate", 1, 9], [1, "rollback", 1], [1, "rollback", 1]]})
         return out
 
     # -- implementation ----------------------------------------------------
@@ -600,10 +736,18 @@ class C20(Check):
 
     def run_impl(self, case):
         # everything the Genome prints (silent=False cases) goes to a buffer; printing is not an observation
-        with contextlib.redirect_stdout(io.StringIO()):
-            return self._run_impl(case)
+        # ... and the module's time source is a scripted clock for the duration of the history
+        from operon_ai.state import genome as GM
+        clock_class, clock = make_clock(case.get("clock") or [1])
+        real_datetime = GM.datetime
+        GM.datetime = clock_class
+        try:
+            with contextlib.redirect_stdout(io.StringIO()):
+                return self._run_impl(case, clock)
+        finally:
+            GM.datetime = real_datetime
 
-    def _run_impl(self, case):
+    def _run_impl(self, case, clock):
         import random as random_module
         from operon_ai.state import genome as GM
         types, levels = list(GM.GeneType), {l.value: l for l in GM.ExpressionLevel}
@@ -618,7 +762,11 @@ class C20(Check):
                            required=bool(x[4]), default_expression=levels[x[5]])
 
         oracle = case["oracle"]
+        acts = case.get("acts") or []
         cbs = {}         # id(callback) -> (callback, rule list): what the harness installed, kept alive
+        # the call the harness is making right now (the genome a consulted callback calls back into), how deep in
+        # callbacks we are, and the calls callbacks made
+        cur = {"g": None, "depth": 0, "nested": []}
 
         def mkcb(rules):
             """A scripted approval callback for a rule list (None: no callback).  One object per installation."""
@@ -629,6 +777,16 @@ class C20(Check):
                 n, r = gid(m.gene_name), REASON_STR.get(m.reason, 9)
                 ok = oracle_says(rules, n, T(m.original_value), T(m.new_value), r)
                 calls.append([n, T(m.original_value), T(m.new_value), r, int(ok)])
+                # what the approver does besides answering
+                act = act_says(acts, n, T(m.original_value), T(m.new_value), r) if cur["depth"] == 0 and cur["g"] is not None else None
+                if act is not None and act[0] == "raise":
+                    raise EXC[act[1]](f"approver gave up on {n}")
+                if act is not None:
+                    cur["depth"] += 1
+                    try:
+                        cur["nested"].append([gname(act[1]), T(act[2]), cur["g"].mutate(gname(act[1]), act[2])])
+                    finally:
+                        cur["depth"] -= 1
                 # a callback may answer with any truthy / falsy object
                 if cbret == 1:
                     return 1 if ok else 0
@@ -670,6 +828,7 @@ class C20(Check):
         snaps = [self._snap(g, world, probes, cbs) for g in world]
         obs = self._detail(snaps[0], 0) + light(snaps)
         steps = [{"init": True, "after": snaps, "calls": list(calls)}]
+        marks = [len(clock["log"])]      # number of clock readings made so far, after the constructor and after every call
         for op, compact, idx in flat_ops(case["ops"]):
             i, kind = op[0], op[1]
             before = snaps
@@ -678,16 +837,26 @@ class C20(Check):
                 obs.append([3])
                 obs += [[]] if compact else light(before)
                 steps.append({"op": op, "bad": True, "before": before, "after": before, "calls": [], "case_op": idx})
+                marks.append(len(clock["log"]))
                 continue
             g = world[i]
             ret = None
             attempts = []
+            raised = None
+            del cur["nested"][:]
             if kind == "add":
                 ret = g.add_gene(mkgene(op[2]))
-            elif kind == "mutate":
-                ret = g.mutate(gname(op[2]), op[3])
-            elif kind == "rollback":
-                ret = g.rollback_mutation(gname(op[2]))
+            elif kind in ("mutate", "rollback"):
+                # the harness is the caller that handles whatever the approver raises and goes on
+                cur["g"] = g
+                try:
+                    ret = g.mutate(gname(op[2]), op[3]) if kind == "mutate" else g.rollback_mutation(gname(op[2]))
+                except BaseException as e:
+                    if type(e) not in EXC or not str(e.args[0] if e.args else "").startswith("approver gave up"):
+                        raise
+                    raised = EXC.index(type(e))
+                finally:
+                    cur["g"] = None
             elif kind == "setexpr":
                 ret = (g.set_expression(gname(op[2]), levels[op[3]], MODIFIERS[op[4]]) if len(op) > 4
                        else g.set_expression(gname(op[2]), levels[op[3]]))
@@ -736,8 +905,16 @@ class C20(Check):
                 g.mutation_rate = op[2] / 64.0
             else:
                 raise ValueError(kind)
+            marks.append(len(clock["log"]))
+            nested = [list(x) for x in cur["nested"]]
             snaps = [self._snap(w, world, probes, cbs) for w in world]
-            if kind == "replicate":
+            if raised is not None:
+                obs.append([5, raised])
+            elif nested:
+                if not isinstance(ret, bool) or not all(isinstance(x[2], bool) for x in nested):
+                    raise RuntimeError(f"{kind} returned {ret!r} / {nested!r}")
+                obs.append([0, int(ret)] + [int(x[2]) for x in nested])
+            elif kind == "replicate":
                 obs.append([1, ret])
             elif kind == "express":
                 obs.append([2] + [y for k, v in ret for y in [ncode(k)] + vcode(v)])
@@ -756,10 +933,13 @@ class C20(Check):
                     obs += self._detail(snaps[-1], 0)
                 obs += light(snaps)
             steps.append({"op": op, "ret": ret, "before": before, "after": snaps, "calls": list(calls),
-                          "attempts": attempts, "case_op": idx})
+                          "attempts": attempts, "case_op": idx, "raised": raised, "nested": nested})
         for s in snaps:
             obs += self._detail(s, 0)
-        return obs, {"steps": steps}
+        # the clock: how many readings the constructor and every call made, and the readings
+        obs.append([marks[0]] + [b - a for a, b in zip(marks, marks[1:])])
+        obs.append(list(clock["log"]))
+        return obs, {"steps": steps, "clock_reads": len(clock["log"])}
 
     # -- model input -------------------------------------------------------
     def coq_case(self, case):
@@ -812,10 +992,16 @@ class C20(Check):
                 return ctuple(cnat(o[0]), cnat(o[2]), gop([o[0]] + list(o[3])))
             return ctuple(cnat(o[0]), cnat(1), gop(o))
 
+        def action(a):
+            return f"(XRaise {cz(a[1])})" if a[0] == "raise" else f"(XCall {cname(a[1])} {cval(a[2])})"
+
         orc = "None" if case["oracle"] is None else f"(Some {clist([rule(q) for q in case['oracle']])})"
+        acts = clist([ctuple(rule(q), action(a)) for q, a in case.get("acts") or []])
+        clk = case.get("clock") or [1]
+        clock = ctuple(cz(clk[0]), cz(0), clist([cz(x) for x in clk[1:]]))
         # the type annotation keeps `None` / `[]` typeable when a whole shard has no callback or no operations
         return "(" + ctuple(cbool(case["allow"]), orc, cz(case.get("rate64", 0)), clist([gene(x) for x in case["genes"]]),
-                            clist([op(o) for o in case["ops"]])) + " : case)"
+                            clist([op(o) for o in case["ops"]]), acts, clock) + " : case)"
 
     # -- the property, on the implementation's trace ------------------------
     @staticmethod
@@ -918,14 +1104,52 @@ class C20(Check):
                 attempt = (nm, vb[nm], T(op[3]), 0)
             if kind == "rollback" and nm in vb and nm in prev[i]:
                 attempt = (nm, vb[nm], prev[i][nm], 1)
+            changes = {}     # gene -> value it must hold now: the changes this call was authorised to make
             if kind in ("mutate", "rollback"):
+                raised, inner = st.get("raised"), []
+                # calls of mutate the approver itself made into this genome while it was being consulted: attempts like
+                # any other (same gate, logged, applied on their own), made before the pending call is decided
+                curv = dict(vb)
+                for n2, v2, r2 in st.get("nested") or []:
+                    if n2 not in curv:
+                        if r2 is not False:
+                            return Violation("C20/phantom-mutation", f"step {k}: during {op} the approver's mutate({n2!r}, ..) "
+                                             f"has nothing to act on but returned {r2}")
+                        continue
+                    auth2 = allow or oracle_says(oracle, n2, curv[n2], v2, 0)
+                    if r2 is not auth2:
+                        return Violation("C20/gate-wrong", f"step {k}: while the approver of genome {i} was being consulted about "
+                                         f"{op} it called mutate({n2!r}: {curv[n2]}->{v2}) (allow={allow}, callback approves="
+                                         f"{oracle_says(oracle, n2, curv[n2], v2, 0)}) which returned {r2}")
+                    inner.append([n2, curv[n2], v2, 0, int(auth2)])
+                    if auth2:
+                        prev[i][n2] = curv[n2]
+                        napproved[i] += 1
+                        curv[n2] = changes[n2] = v2
                 if attempt is None:
-                    if st["ret"] is not False or a != b:
+                    if raised is not None:
+                        return Violation("C20/raises", f"step {k}: {op} on genome {i} raised {EXC[raised].__name__}")
+                    if st["ret"] is not False or (a != b and not inner):
                         return Violation("C20/phantom-mutation", f"step {k}: {op} on genome {i} has nothing to act on but returned "
                                          f"{st['ret']} / changed state")
                 else:
                     n, old, new, r = attempt
                     authorised = allow or oracle_says(oracle, n, old, new, r)
+                    # what the approver does besides answering, when the gate gets as far as asking it
+                    act = act_says(case.get("acts"), n, old, new, r) if not allow and oracle is not None else None
+                    if act is not None and act[0] == "raise":
+                        # an approver that raises has not approved anything: whether the exception reaches the caller
+                        # (who handles it and goes on) or the call swallows it, the change is not authorised
+                        authorised = False
+                    if raised is not None:
+                        if act is None or act[0] != "raise" or act[1] != raised:
+                            return Violation("C20/raises", f"step {k}: {op} on genome {i} raised {EXC[raised].__name__}")
+                        if newlog and newlog != [[n, old, new, r, 0]]:
+                            return Violation("C20/crashed-approver-logged-wrong", f"step {k}: the approver raised "
+                                             f"{EXC[raised].__name__} during {op} on genome {i} and the log grew by {newlog}")
+                        # nothing was approved: the loop below demands that no stored value changed
+                        newlog = [[n, old, new, r, 0]]
+                        st = dict(st, ret=False)
                     if kind == "rollback" and authorised and st["ret"] is False and not newlog and a == b:
                         return Violation("C20/rollback-not-performed", f"step {k}: rollback of gene {n!r} on genome {i} is authorised "
                                          f"(allow={allow}, callback approves={oracle_says(oracle, n, old, new, r)}) and the value "
@@ -939,7 +1163,12 @@ class C20(Check):
                             return Violation("C20/rollback-wrong-value", f"step {k}: rollback of gene {n!r} on genome {i} left value "
                                              f"{va.get(n)}, the value preceding the last approved mutation was {new}")
                         return Violation("C20/mutation-not-applied", f"step {k}: approved {op} left value {va.get(n)}")
-                    if newlog != [[n, old, new, r, int(authorised)]]:
+                    for n2, v2 in changes.items():
+                        if va.get(n2) != v2 and not (n2 == n and authorised):
+                            return Violation("C20/mutation-not-applied", f"step {k}: during {op} the approver's approved "
+                                             f"mutate of {n2!r} to {v2} left value {va.get(n2)}")
+                    outer = [n, old, new, r, int(authorised)]
+                    if newlog != inner + [outer] and newlog != [outer] + inner:
                         if not authorised:
                             return Violation("C20/refused-not-logged", f"step {k}: refused {op} on genome {i} was not logged as one "
                                              f"unapproved entry (new log entries: {newlog})")
@@ -948,6 +1177,7 @@ class C20(Check):
                     if authorised:
                         prev[i][n] = old
                         napproved[i] += 1
+                        changes[n] = new
             elif newlog:
                 return Violation("C20/spurious-log", f"step {k}: {op} on genome {i} appended log entries {newlog}")
             # no stored value changes unless authorised
@@ -958,8 +1188,8 @@ class C20(Check):
                     ok = False
                     if kind == "add" and nstr(op[2][0]) == n and allow:
                         ok = True
-                    if attempt is not None and attempt[0] == n and (allow or oracle_says(oracle, n, old, va[n], attempt[3])):
-                        ok = va[n] == attempt[2]
+                    if n in changes:
+                        ok = va[n] == changes[n]
                     if not ok:
                         return Violation("C20/unauthorised-change", f"step {k}: {op} on genome {i} (allow_mutations={allow}) changed "
                                          f"gene {n!r} from {old} to {va[n]} without authorisation")
@@ -1078,6 +1308,12 @@ class C20(Check):
                         ks.append("rollback-applied-to:" + kinds.get(m[2][0], "?"))
                     elif m[3] == 1:
                         ks.append("rollback-refused-to:" + kinds.get(m[2][0], "?"))
+        clk = case.get("clock")
+        ks.append("clock=" + ("ticking" if not clk else "runs-backwards" if clk[0] < 0 and len(clk) < 3 else
+                              "steps-back" if any(y < x for x, y in zip(clk[1:], clk[2:])) else
+                              "stands-still" if clk[0] == 0 else "repeats" if len(set(clk[1:])) < len(clk[1:]) else "scripted"))
+        ks.append(f"clock-readings={min(trace.get('clock_reads', 0), 5)}" + ("+" if trace.get("clock_reads", 0) > 5 else ""))
+        raised_on = set()
         for st in trace.get("steps", []):
             op = st.get("op")
             if not op or st.get("bad"):
@@ -1095,6 +1331,15 @@ class C20(Check):
                     tag += ":" + ("remove" if op[2] is None else "install" if bcfg["oracle"] is None else "replace")
                 ks.append(tag + ("@child" if op[0] > 0 else "@root"))
                 continue
+            if st.get("raised") is not None:
+                ks.append(f"approver-raised:{'Exception' if st['raised'] < N_PLAIN_EXC else 'BaseException'}:{kind}")
+                raised_on.add(op[0])
+            elif kind in ("mutate", "rollback") and op[0] in raised_on and len(st["after"][op[0]]["log"]) > len(bcfg["log"]):
+                ks.append(f"gate-after-approver-raised:{kind}={st['ret']}")
+            for n2, v2, r2 in st.get("nested") or []:
+                where = "same-gene" if kind in ("mutate", "rollback") and n2 == nstr(op[2]) else \
+                    "other-gene" if n2 in {x[0] for x in bcfg["genes"]} else "no-gene"
+                ks.append(f"approver-called-back:{where}={r2}/outer-{kind}={st['ret']}")
             if kind in ("mutate", "rollback") and len(st["after"][op[0]]["log"]) > len(bcfg["log"]):
                 # a call that reached the gate on a genome whose configuration is not the constructor's any more
                 if bcfg["allow"] != bool(case["allow"]) and op[0] == 0:
@@ -1151,7 +1396,21 @@ class C20(Check):
                     lo, hi = (lo, mid) if ok else (mid, hi)
                 ops = with_k(hi)
         genes = common.shrink_list(case["genes"], lambda gs: len(gs) > 0 and pred({**case, "ops": ops, "genes": gs}))
-        return {**case, "ops": ops, "genes": genes}
+        small = {**case, "ops": ops, "genes": genes}
+        if small.get("acts"):
+            small["acts"] = common.shrink_list(small["acts"], lambda xs: pred({**small, "acts": xs}))
+            if not small["acts"]:
+                del small["acts"]
+        if small.get("clock"):
+            for simpler in (None, [0], [small["clock"][0]]):
+                trial = {**small, "clock": simpler} if simpler else {x: y for x, y in small.items() if x != "clock"}
+                try:
+                    if simpler != small["clock"] and pred(trial):
+                        small = trial
+                        break
+                except Exception:
+                    pass
+        return small
 
 
 CHECK = C20
